@@ -154,6 +154,44 @@ async fn stop_node(world: &WorldRef, id: u32, how: u8, choice: u64) {
     world.borrow_mut().nodes.insert(id, Some(node));
 }
 
+/// Non-graceful stop of `id` (subject to the minority rule), downtime, restart.
+async fn crash_checked(world: &WorldRef, id: u32, power_loss: bool, down_ms: u64, choice: u64, kind_name: &str) {
+    // never take down a majority of the voters at once (property quantifier of C05/C10:
+    // "crash and restart of any minority of voting nodes"). With mask `sole_voter_crash`
+    // the rule is strict: the crashed set D must be a minority of every voter
+    // configuration the run can reach (plan voters V plus any promoted learners L):
+    // 2*|D∩V| + |D∩L| < |V|; the sole voter of a 1-voter cluster is then restarted
+    // gracefully instead (a crash of 1 of 1 voters is not a minority crash). Without the
+    // mask (C02 batches: vote/term persistence of any node) the sole voter may crash.
+    let (ok, as_graceful) = {
+        let w = world.borrow();
+        let up = w.up_nodes();
+        let voters = w.plan.voters.len();
+        let strict = w.plan.masked.iter().any(|m| m == "sole_voter_crash");
+        if strict {
+            let is_down_after = |n: &u32| *n == id || !up.contains(n);
+            let dv = w.plan.voters.iter().filter(|v| is_down_after(v)).count();
+            let dl = w.plan.learners.iter().filter(|l| is_down_after(l)).count();
+            let ok = 2 * dv + dl < voters;
+            (ok, !ok && voters == 1 && w.plan.voters.contains(&id))
+        } else {
+            let down = w.plan.voters.iter().filter(|v| !up.contains(v)).count();
+            (!w.plan.voters.contains(&id) || (down + 1) * 2 < voters || voters == 1, false)
+        }
+    };
+    if (ok || as_graceful) && world.borrow().up_nodes().contains(&id) {
+        if as_graceful {
+            stop_node(world, id, 2, choice).await;
+            world.borrow_mut().fire("sole_voter_graceful_restart");
+        } else {
+            stop_node(world, id, if power_loss { 1 } else { 0 }, choice).await;
+            world.borrow_mut().fire(kind_name);
+        }
+        tokio::time::sleep(Duration::from_millis(down_ms)).await;
+        start_node(world, id).await;
+    }
+}
+
 async fn exec_fault(world: WorldRef, f: Fault) {
     tokio::time::sleep(Duration::from_millis(f.at())).await;
     let seed = world.borrow().plan.seed;
@@ -205,39 +243,34 @@ async fn exec_fault(world: WorldRef, f: Fault) {
         Fault::Crash { node, power_loss, down_ms, .. } => {
             let id = resolve(&world.borrow(), &node);
             if let Some(id) = id {
-                // never take down a majority of the voters at once (property quantifier of C05/C10:
-                // "crash and restart of any minority of voting nodes"). With mask `sole_voter_crash`
-                // the rule is strict: the crashed set D must be a minority of every voter
-                // configuration the run can reach (plan voters V plus any promoted learners L):
-                // 2*|D∩V| + |D∩L| < |V|; the sole voter of a 1-voter cluster is then restarted
-                // gracefully instead (a crash of 1 of 1 voters is not a minority crash). Without the
-                // mask (C02 batches: vote/term persistence of any node) the sole voter may crash.
-                let (ok, as_graceful) = {
-                    let w = world.borrow();
-                    let up = w.up_nodes();
-                    let voters = w.plan.voters.len();
-                    let strict = w.plan.masked.iter().any(|m| m == "sole_voter_crash");
-                    if strict {
-                        let is_down_after = |n: &u32| *n == id || !up.contains(n);
-                        let dv = w.plan.voters.iter().filter(|v| is_down_after(v)).count();
-                        let dl = w.plan.learners.iter().filter(|l| is_down_after(l)).count();
-                        let ok = 2 * dv + dl < voters;
-                        (ok, !ok && voters == 1 && w.plan.voters.contains(&id))
-                    } else {
-                        let down = w.plan.voters.iter().filter(|v| !up.contains(v)).count();
-                        (!w.plan.voters.contains(&id) || (down + 1) * 2 < voters || voters == 1, false)
+                crash_checked(&world, id, power_loss, down_ms, choice, f.kind_name()).await;
+            }
+        }
+        Fault::CrashOnGrant { nth, power_loss, down_ms, .. } => {
+            let mut rx = {
+                let w = world.borrow();
+                let mut o = w.oracle.lock().unwrap();
+                match &o.grant_signal {
+                    Some(tx) => tx.subscribe(),
+                    None => {
+                        let (tx, rx) = tokio::sync::watch::channel((o.grant_count, 0u32));
+                        o.grant_signal = Some(tx);
+                        rx
                     }
-                };
-                if (ok || as_graceful) && world.borrow().up_nodes().contains(&id) {
-                    if as_graceful {
-                        stop_node(&world, id, 2, choice).await;
-                        world.borrow_mut().fire("sole_voter_graceful_restart");
-                    } else {
-                        stop_node(&world, id, if power_loss { 1 } else { 0 }, choice).await;
-                        world.borrow_mut().fire(f.kind_name());
-                    }
-                    tokio::time::sleep(Duration::from_millis(down_ms)).await;
-                    start_node(&world, id).await;
+                }
+            };
+            let base = rx.borrow().0;
+            loop {
+                if world.borrow().in_quiet || rx.changed().await.is_err() {
+                    break;
+                }
+                if world.borrow().in_quiet {
+                    break;
+                }
+                let (c, voter) = *rx.borrow();
+                if c >= base + nth as u64 {
+                    crash_checked(&world, voter, power_loss, down_ms, choice, f.kind_name()).await;
+                    break;
                 }
             }
         }
